@@ -151,6 +151,14 @@ CLAIMED["C03"] = dict(
     note=TRUST + " lib/typed2coq.py (Debug tree -> Coq term) is trusted to keep names and types; constructor field types and trait method signatures are not re-checked; an unsatisfied trait bound at a generic call is a known finding.",
 )
 
+CLAIMED["C20"] = dict(
+    category="exploration",
+    technique="exploration of the real query functions (hover_type, dot_completions, colon_colon_completions) under catch_unwind at every cursor position of small texts and sampled positions of generated programs, prefixes and mutations; hover on binders compared with the typed-tree dump; completion items judged against the declarations of generated incomplete programs. No model of the query layer: only the token/tree losslessness it relies on is a theorem (C12)",
+    text="Crash-freedom at all (line, column) incl. positions outside the text; hover on every let binder of generated programs with inference-heavy statements must print the type of the typed tree; completions after p.<prefix>, Enum::<prefix>, Type::<prefix> must name declared fields/methods/variants with the right prefix and field type and omit no field. This is exploration, not proof.",
+    design_ref="DESIGN.md §4 C20",
+    note=TRUST + " The proof technique does not reach the query layer (it is glue over the typer's side tables); the claimed level is exploration.",
+)
+
 NOT_YET = {}
 
 def main():
